@@ -115,6 +115,12 @@ Definition dispatch (req : list Z) : list Z :=
                    let dd := match d with 0 => DTrue | 1 => DFloor | _ => DMod end in
                    let fz := div_fmt dd fx fy in
                    eoutcome (ewres fz) (if m =? 0 then div_raw dd fx cxs fy cys fz r o else div_repr dd fx cxs fy cys fz r o)) t
+  (* 45: the division family into an IMPOSED result format fz *)
+  | 45 :: t => run (d <- dZ ;; m <- dZ ;; fx <- dfmt ;; cxs <- dlist dZ ;; fy <- dfmt ;; cys <- dlist dZ ;; fz <- dfmt ;; r <- drmode ;; o <- domode ;;
+                    dret (d, m, fx, cxs, fy, cys, fz, r, o))
+                (fun '(d, m, fx, cxs, fy, cys, fz, r, o) =>
+                   let dd := match d with 0 => DTrue | 1 => DFloor | _ => DMod end in
+                   eoutcome (ewres fz) (if m =? 0 then div_raw dd fx cxs fy cys fz r o else div_repr dd fx cxs fy cys fz r o)) t
   (* 50: the six comparisons of (fx, cx) with (fy, cy) and with a number; 51: conversions of (f, c);
      52: scaled store of values; 53: scaled read and limits *)
   | 50 :: t => run (fx <- dfmt ;; cx <- dZ ;; fy <- dfmt ;; cy <- dZ ;; y <- df64 ;; dret (fx, cx, fy, cy, y))
